@@ -204,6 +204,14 @@ func genQueue(repo, out string) {
 	l.line("/-- clearBackoff: `delete(adapter.backoffs, item)` -/")
 	l.line("def clearDeletes : Bool := %s", leanBool(clearDeletes))
 
+	// --- qruntime.runReconcile: what the worker does with the outcome of a reconcile
+	known, guard := reconcileOutcomeSwitch(parse(filepath.Join(repo, "pkg/controller/runtime/internal/qruntime/qruntime.go")))
+
+	l.line("/-- qruntime.runReconcile, the worker body `func() { defer item.Release(); … }()`: a RequeueError is unwrapped into (reconcileError, interval, requeued = true); `switch { case skipped: clearBackoff … case reconcileError != nil: <failBackoffGuard> … default: clearBackoff … }`; last statement `if interval != 0 { item.Requeue(time.Now().Add(interval)) }`; `interval` is assigned nowhere else -/")
+	l.line("def outcomeSwitchKnown : Bool := %s", leanBool(known))
+	l.line("/-- the guard of `interval = adapter.getBackoffInterval(item.Key())` in `case reconcileError != nil` -/")
+	l.line("def failBackoffGuard : FailGuard := .%s", guard)
+
 	// --- cenkalti defaults of the pinned version
 	c := cenkaltiDefaults(repo)
 
@@ -215,6 +223,175 @@ func genQueue(repo, out string) {
 	l.line("def randomizationNum : Nat := %d", c.rfNum)
 	l.line("def randomizationDen : Nat := %d", c.rfDen)
 	l.write(out, ns)
+}
+
+// reconcileOutcomeSwitch recognises the outcome handling of qruntime.runReconcile (see the doc strings emitted by
+// genQueue). Anything unexpected gives (false, "unknown").
+func reconcileOutcomeSwitch(qr *ast.File) (bool, string) {
+	fd := method(qr, "Adapter", "runReconcile")
+	if fd == nil || fd.Body == nil {
+		return false, "unknown"
+	}
+
+	// the worker body: the function literal that starts with `defer item.Release()`
+	var body []ast.Stmt
+
+	ast.Inspect(fd.Body, func(x ast.Node) bool {
+		if fl, ok := x.(*ast.FuncLit); ok && body == nil && len(fl.Body.List) > 0 && src(fl.Body.List[0]) == "defer item.Release()" {
+			body = fl.Body.List
+		}
+
+		return body == nil
+	})
+
+	if body == nil {
+		return false, "unknown"
+	}
+
+	const (
+		backoffAssign = "interval = adapter.getBackoffInterval(item.Key())"
+		clear         = "adapter.clearBackoff(item.Key())"
+	)
+
+	// every assignment to `interval` inside the worker body, by text
+	var intervalAssigns []string
+
+	for _, st := range body {
+		ast.Inspect(st, func(x ast.Node) bool {
+			switch n := x.(type) {
+			case *ast.AssignStmt:
+				for _, lhs := range n.Lhs {
+					if src(lhs) == "interval" {
+						intervalAssigns = append(intervalAssigns, src(n))
+					}
+				}
+			case *ast.IncDecStmt:
+				if src(n.X) == "interval" {
+					intervalAssigns = append(intervalAssigns, src(n))
+				}
+			case *ast.UnaryExpr:
+				if n.Op == token.AND && src(n.X) == "interval" {
+					intervalAssigns = append(intervalAssigns, src(n))
+				}
+			}
+
+			return true
+		})
+	}
+
+	okAssigns := len(intervalAssigns) == 2 && intervalAssigns[0] == "interval = requeueError.Interval()" && intervalAssigns[1] == backoffAssign
+
+	unwrap, skippedDef, requeueLast := false, false, false
+
+	var sw *ast.SwitchStmt
+
+	for i, st := range body {
+		switch n := st.(type) {
+		case *ast.IfStmt:
+			if src(n.Cond) == "errors.As(reconcileError, &requeueError)" && n.Init == nil && n.Else == nil && len(n.Body.List) == 3 &&
+				src(n.Body.List[0]) == "reconcileError = requeueError.Err()" && src(n.Body.List[1]) == "interval = requeueError.Interval()" &&
+				src(n.Body.List[2]) == "requeued = true" {
+				unwrap = true
+			}
+
+			if i == len(body)-1 && src(n.Cond) == "interval != 0" && n.Init == nil && n.Else == nil && len(n.Body.List) == 1 &&
+				src(n.Body.List[0]) == "item.Requeue(time.Now().Add(interval))" {
+				requeueLast = true
+			}
+		case *ast.AssignStmt:
+			if src(n) == "skipped := xerrors.TagIs[qtransform.SkipReconcileTag](reconcileError)" {
+				skippedDef = true
+			}
+		case *ast.SwitchStmt:
+			if n.Tag == nil && n.Init == nil && containsCall(n, "adapter.clearBackoff(") {
+				if sw != nil {
+					return false, "unknown"
+				}
+
+				sw = n
+			}
+		}
+	}
+
+	// item.Requeue / item.Release are called nowhere else in the worker body
+	requeues := 0
+
+	for _, st := range body {
+		ast.Inspect(st, func(x ast.Node) bool {
+			if c, ok := x.(*ast.CallExpr); ok && (src(c.Fun) == "item.Requeue" || src(c.Fun) == "item.Release") {
+				requeues++
+			}
+
+			return true
+		})
+	}
+
+	if sw == nil || len(sw.Body.List) != 3 || requeues != 2 {
+		return false, "unknown"
+	}
+
+	clause := func(i int) (string, []ast.Stmt) {
+		cc := sw.Body.List[i].(*ast.CaseClause) //nolint:forcetypeassert
+		if len(cc.List) == 0 {
+			return "default", cc.Body
+		}
+
+		if len(cc.List) != 1 {
+			return "?", cc.Body
+		}
+
+		return src(cc.List[0]), cc.Body
+	}
+
+	c0, b0 := clause(0)
+	c1, b1 := clause(1)
+	c2, b2 := clause(2)
+
+	clears := func(b []ast.Stmt) bool {
+		n := 0
+
+		for _, st := range b {
+			if containsCall(st, "adapter.clearBackoff(") {
+				n++
+			}
+		}
+
+		return len(b) > 0 && src(b[0]) == clear && n == 1
+	}
+
+	shape := c0 == "skipped" && c1 == "reconcileError != nil" && c2 == "default" && clears(b0) && clears(b2) && len(b1) > 0
+	for _, st := range b1 {
+		if containsCall(st, "adapter.clearBackoff(") {
+			shape = false
+		}
+	}
+
+	guard := "unknown"
+
+	if shape {
+		switch n := b1[0].(type) {
+		case *ast.IfStmt:
+			if n.Init == nil && n.Else == nil && len(n.Body.List) == 1 && src(n.Body.List[0]) == backoffAssign {
+				switch src(n.Cond) {
+				case "interval == 0":
+					guard = "intervalZero"
+				case "!requeued":
+					guard = "notRequeued"
+				}
+			}
+		case *ast.AssignStmt:
+			if src(n) == backoffAssign {
+				guard = "always"
+			}
+		}
+	}
+
+	known := shape && okAssigns && unwrap && skippedDef && requeueLast && guard != "unknown"
+	if !known {
+		return false, "unknown"
+	}
+
+	return true, guard
 }
 
 type cenkalti struct {
